@@ -1,6 +1,9 @@
 """C17, second half: the transform contract on the float range, prior densities against the documented formulas
 (points from ConstraintPriors.tla, reference values by mpmath), priors registered on modules (closure = constrained
-value, sample_from_prior stores the sample, the marginal log likelihood adds the documented log densities)."""
+value, sample_from_prior stores the sample, the marginal log likelihood adds the documented log densities), and the HISTORY of a
+prior object (HSpec of ConstraintPriors.tla: construct / assign attributes / load_state_dict directly or through the module it is
+registered on / deepcopy, pickle / dtype conversion; after every step log_prob is the documented density at the hyper-parameters the
+spec says the object has, and its attributes and state_dict report them)."""
 import math
 import os
 import random
@@ -10,15 +13,29 @@ from harness import core, tlc
 PID = "C17"
 
 
+PRIOR_ALIAS_FIXED = True
+
+
 def write_mc(workdir, thorough):
+    """(module, cfg of the density lattice, cfg of the history machine as coded, cfg of the history machine with the alias kept)"""
     os.makedirs(workdir, exist_ok=True)
     mod = "MC_ConstraintPriors"
     with open(os.path.join(workdir, mod + ".tla"), "w") as f:
-        f.write("---- MODULE %s ----\nEXTENDS ConstraintPriors\nPtsDef == %s\n====\n" % (mod, "-8..12" if not thorough else "-12..20"))
+        f.write("---- MODULE %s ----\nEXTENDS ConstraintPriors\nPtsDef == %s\nHIdxDef == %s\n====\n" % (
+            mod, "-8..12" if not thorough else "-12..20", "{1, 2, 3}" if thorough else "{1, 2}"))
+    # AliasSurvivesConv: FALSE models the pinned code (Module._apply separated the _transformed_* buffers from base_dist); the /repo fix
+    # "transformed priors kept reading their old hyper-parameters ..." re-points base_dist after _apply, which is the TRUE variant
+    consts = {"Pts": "<- PtsDef", "Thorough": bool(thorough), "HIdx": "<- HIdxDef", "HMaxLen": 3, "AliasSurvivesConv": PRIOR_ALIAS_FIXED}
     cfg = os.path.join(workdir, mod + ".cfg")
-    tlc.write_cfg(cfg, spec="Spec", constants={"Pts": "<- PtsDef", "Thorough": bool(thorough)},
+    tlc.write_cfg(cfg, spec="Spec", constants=consts,
                   invariants=["BoxDistanceIsDistance", "BoxSupport", "UniformNormalised", "DetIsPivotProduct", "CorrIffMinors", "CovPositiveDefinite"])
-    return os.path.join(workdir, mod + ".tla"), cfg
+    # the history machine: the code as it is (the property holds on every history without a buffer-replacing conversion; the rest is
+    # predicted stale and the replay decides), and the repaired design (the property holds on every history)
+    hcfg = os.path.join(workdir, mod + "_hist.cfg")
+    tlc.write_cfg(hcfg, spec="HSpec", constants=consts, invariants=["HWellFormed", "HStaleOnlyByAlias", "HAgreeUnlessConverted"])
+    rcfg = os.path.join(workdir, mod + "_hist_repaired.cfg")
+    tlc.write_cfg(rcfg, spec="HSpec", constants=dict(consts, AliasSurvivesConv=True), invariants=["HWellFormed", "HAgree"])
+    return os.path.join(workdir, mod + ".tla"), cfg, hcfg, rcfg
 
 
 def _env():
@@ -726,6 +743,270 @@ def run_priors(ck, states, thorough, cells=None):
     ck.section("mll_prior_terms", models=len(results))
 
 
+
+# ---------------------------------------------------------------------------------------------
+# history of the prior object (ConstraintPriors.tla, HSpec)
+# ---------------------------------------------------------------------------------------------
+# public attributes that report the hyper-parameters (in the order of the spec's tuples) / the ones an Assign step assigns
+H_ATTRS = {"Normal": ("loc", "scale"), "LogNormal": ("loc", "scale"), "HalfNormal": ("scale",), "HalfCauchy": ("scale",), "Horseshoe": ("scale",),
+           "Gamma": ("concentration", "rate"), "Uniform": ("low", "high"), "SmoothedBox": ("a", "b", "sigma"), "MVN2": ("loc",), "LKJ2": ("concentration",)}
+H_ASSIGN = dict(H_ATTRS, SmoothedBox=("a", "b"))
+# state_dict entries -> index of the hyper-parameter they report
+H_STATE = {"Normal": {"loc": 0, "scale": 1}, "LogNormal": {"_transformed_loc": 0, "_transformed_scale": 1}, "HalfNormal": {"_transformed_scale": 0},
+           "HalfCauchy": {"_transformed_scale": 0}, "Horseshoe": {"scale": 0}, "Gamma": {"concentration": 0, "rate": 1},
+           "SmoothedBox": {"a": 0, "b": 1, "sigma": 2, "tails.scale": 2}, "Uniform": {}, "LKJ2": {}, "MVN2": {"loc": "loc", "_unbroadcasted_scale_tril": "tril"}}
+H_CLASS = {"MVN2": "MultivariateNormalPrior", "LKJ2": "LKJPrior"}
+H_REAL = ("holder", "kernel", "likelihood")
+
+
+def _h_values(torch, mp, fam, par):
+    """float64 tensors of a hyper-parameter tuple of the spec, by reported name"""
+    t64 = dict(dtype=torch.float64)
+    if fam == "MVN2":
+        m1, m2, S = par
+        cov = torch.tensor([[S[0], S[1]], [S[1], S[2]]], **t64)
+        return dict(loc=torch.tensor([float(q2mp(mp, m1)), float(q2mp(mp, m2))], **t64), cov=cov, tril=torch.linalg.cholesky(cov))
+    vals = [float(q2mp(mp, q)) for q in par]
+    return {i: torch.tensor([v] if fam == "SmoothedBox" else v, **t64) for i, v in enumerate(vals)}
+
+
+def _h_make(torch, gp, mp, fam, par):
+    P = gp.priors
+    if fam == "MVN2":
+        v = _h_values(torch, mp, fam, par)
+        return P.MultivariateNormalPrior(v["loc"], covariance_matrix=v["cov"])
+    if fam == "LKJ2":
+        return P.LKJPrior(2, float(q2mp(mp, par[0])))
+    return make_prior(torch, gp, fam, [q2mp(mp, q) for q in par])
+
+
+def _h_owner(torch, gp, real, prior):
+    """(owner module, how to find the prior in it)"""
+    if real == "kernel":
+        return gp.kernels.RBFKernel(lengthscale_prior=prior), ("lengthscale_prior",)
+    if real == "likelihood":
+        return gp.likelihoods.GaussianLikelihood(noise_prior=prior), ("noise_covar", "noise_prior")
+    m = gp.Module()
+    m.add_module("p", prior)
+    return m, ("p",)
+
+
+def _h_ref(mp, cache, fam, par, pt):
+    """documented log density at the point (for LKJ2: relative to the identity matrix); None outside the support"""
+    k = core.digest([fam, par, pt])
+    if k not in cache:
+        if fam == "MVN2":
+            m1, m2, S = par
+            dx, dy = mp.mpf(pt[0]) / 4 - q2mp(mp, m1), mp.mpf(pt[1]) / 4 - q2mp(mp, m2)
+            det = mp.mpf(S[0] * S[2] - S[1] * S[1])
+            cache[k] = -(S[2] * dx * dx - 2 * S[1] * dx * dy + S[0] * dy * dy) / det / 2 - mp.log(det) / 2 - mp.log(2 * mp.pi)
+        elif fam == "LKJ2":
+            cache[k] = (q2mp(mp, par[0]) - 1) * mp.log(1 - (mp.mpf(pt) / 4) ** 2)
+        else:
+            cache[k] = ref_logpdf(mp, fam, [q2mp(mp, q) for q in par], mp.mpf(pt) / 4)
+        if cache[k] is not None:
+            cache[k] = float(cache[k])
+    return cache[k]
+
+
+def _h_logprob(torch, fam, prior, pt):
+    t64 = dict(dtype=torch.float64)
+    if fam == "MVN2":
+        return float(prior.log_prob(torch.tensor([pt[0] / 4.0, pt[1] / 4.0], **t64)))
+    if fam == "LKJ2":
+        a = pt / 4.0
+        return float(prior.log_prob(torch.tensor([[1.0, a], [a, 1.0]], **t64)) - prior.log_prob(torch.eye(2, **t64)))
+    x = torch.tensor(pt / 4.0, **t64)
+    return float(prior.log_prob(x.reshape(1) if fam == "SmoothedBox" else x))
+
+
+def _h_describe(steps):
+    return " -> ".join("%s(%s)" % (s[0], s[1]) if s[0] != "Construct" else "Construct" for s in steps)
+
+
+def _prior_history_worker(item):
+    """One maximal history of HSpec on one realisation of `the module the prior is registered on`; the oracle after every step is the
+    spec's hp: mpmath density at HParOf(fam, hp), and attributes / state_dict reporting those values."""
+    import copy
+    import io
+    torch, gp = _env()
+    mp = _mp()
+    cache = item.setdefault("_cache", {})
+    out = []
+    for steps in item["hists"]:
+        fam, real = item["fam"], item["real"]
+        pname = H_CLASS.get(fam, fam + "Prior")
+        pts, table = steps[0][5], steps[0][6]
+        r = dict(key=["prior-history", fam, real, [s[:2] for s in steps]], ok=True, nontrivial=len(steps) > 1, n=len(steps))
+        conv_before = False
+        predicted = False
+        state = {}
+
+        def fail(clause, k, detail):
+            op = steps[k][0]
+            r.update(ok=False, sig="C17/prior-history/%s/%s/%s%s" % (pname, clause, op, "/after-dtype-conversion" if conv_before else ""),
+                     detail="%s registered on a %s, history %s, after step %d (%s): %s%s" % (
+                         pname, real, _h_describe(steps), k, op, detail,
+                         " [the code-shaped model of ConstraintPriors.tla predicts this state as stale]" if steps[k][3] else ""),
+                     case=dict(kind="prior-history", item=dict(fam=fam, real=real, hists=[steps])))
+
+        def get():
+            q = state["owner"]
+            for a in state["path"]:
+                q = getattr(q, a)
+            return q
+
+        def apply(k, step):
+            op, a = step[0], step[1]
+            if op == "Construct":
+                state["owner"], state["path"] = _h_owner(torch, gp, real, _h_make(torch, gp, mp, fam, table[0]))
+            elif op == "Assign":
+                v = _h_values(torch, mp, fam, table[a - 1])
+                names = H_ATTRS[fam]
+                for nm in H_ASSIGN[fam]:
+                    setattr(get(), nm, v[nm] if fam == "MVN2" else v[names.index(nm)].clone())
+            elif op == "Load":
+                get().load_state_dict(_h_make(torch, gp, mp, fam, table[a - 1]).state_dict())
+            elif op == "ModLoad":
+                src, _ = _h_owner(torch, gp, real, _h_make(torch, gp, mp, fam, table[a - 1]))
+                state["owner"].load_state_dict(src.state_dict())
+            elif op == "Copy":
+                if a == 0:
+                    state["owner"] = copy.deepcopy(state["owner"])
+                elif real == "holder":
+                    buf = io.BytesIO()
+                    torch.save(state["owner"], buf)
+                    buf.seek(0)
+                    state["owner"] = torch.load(buf, weights_only=False)
+                else:
+                    # the closures of constructor-registered priors do not pickle (C18's subject): the prior makes the round trip alone and
+                    # is registered again under its name
+                    owner = state["owner"]
+                    for q in state["path"][:-1]:
+                        owner = getattr(owner, q)
+                    buf = io.BytesIO()
+                    torch.save(get(), buf)
+                    buf.seek(0)
+                    _, closure, setting = owner._priors[state["path"][-1]]
+                    owner.register_prior(state["path"][-1], torch.load(buf, weights_only=False), closure, setting)
+            elif op == "Conv":
+                state["owner"] = state["owner"].double() if a == 0 else state["owner"].float().double()
+            else:
+                raise core.Machinery("unknown prior history step %r" % (step,))
+
+        for k, step in enumerate(steps):
+            ok_, info = core.guarded(lambda: apply(k, step))
+            if not ok_:
+                fail("raised", k, "the operation raised %s" % info)
+                break
+            par = step[4]
+            predicted = predicted or bool(step[3])
+            prior = get()
+            want = _h_values(torch, mp, fam, par)
+            # what the object reports
+            bad = None
+            ok_, sd = core.guarded(lambda: prior.state_dict())
+            if not ok_:
+                fail("raised", k, "state_dict() raised %s" % sd)
+                break
+            for key, idx in H_STATE[fam].items():
+                if key in sd:
+                    got = sd[key].detach().to(torch.float64)
+                    if got.numel() != want[idx].numel() or not bool(((got.reshape(-1) - want[idx].reshape(-1)).abs() <= 1e-12).all()):
+                        bad = "state_dict()[%r] = %s, the hyper-parameter is %s" % (key, got.reshape(-1).tolist(), want[idx].reshape(-1).tolist())
+            for i, nm in enumerate(H_ATTRS[fam]):
+                ok_, got = core.guarded(lambda: getattr(prior, nm).detach().to(torch.float64))
+                w = want["loc"] if fam == "MVN2" else want[i]
+                if not ok_:
+                    bad = "reading the attribute %s raised %s" % (nm, got)
+                elif not bool(((got.reshape(-1) - w.reshape(-1)).abs() <= 1e-12).all()):
+                    bad = "the attribute %s reads %s, the hyper-parameter is %s" % (nm, got.reshape(-1).tolist(), w.reshape(-1).tolist())
+            # what log_prob uses
+            badd = None
+            for pt in pts:
+                ref = _h_ref(mp, cache, fam, par, pt)
+                if ref is None:
+                    continue
+                ok_, got = core.guarded(lambda: _h_logprob(torch, fam, prior, pt))
+                if not (ok_ and _close(got, ref, 1e-8, 1e-9)):
+                    badd = "log_prob(%s) = %s, the documented density at the hyper-parameters %s is %s" % (
+                        [p / 4.0 for p in pt] if isinstance(pt, list) else pt / 4.0, got, [float(q2mp(mp, q)) if len(q) == 2 else q for q in par], ref)
+                    break
+            if badd:
+                fail("density", k, badd + ("; " + bad if bad else ""))
+                break
+            if bad:
+                fail("reports", k, bad)
+                break
+            if step[0] == "Conv" and step[1] == 1:
+                conv_before = True
+        else:
+            # the registered closure hands the constrained value to the restored prior
+            if real != "holder" and fam not in ("MVN2", "LKJ2"):
+                par = steps[-1][4]
+                owner = state["owner"]
+                for pt in pts:
+                    ref = _h_ref(mp, cache, fam, par, pt)
+                    if ref is None or pt <= 0:
+                        continue
+                    def via_closure():
+                        if real == "kernel":
+                            owner.lengthscale = pt / 4.0
+                        else:
+                            owner.noise = pt / 4.0
+                        found = [(m, p, cl) for _, m, p, cl, _ in owner.named_priors()]
+                        if len(found) != 1:
+                            raise core.Machinery("expected one registered prior, found %d" % len(found))
+                        m, p, cl = found[0]
+                        return float(p.log_prob(cl(m)).sum())
+                    ok_, got = core.guarded(via_closure)
+                    if not (ok_ and _close(got, ref, 1e-7, 1e-8)):
+                        fail("closure-density", len(steps) - 1, "log_prob(closure(module)) with the parameter at %s = %s, documented density %s" % (pt / 4.0, got, ref))
+                    break
+        if r["ok"] and predicted:
+            r["drift"] = "ConstraintPriors.tla (as coded) predicts a stale %s after %s; the implementation agrees with the property there" % (pname, _h_describe(steps))
+        if item.get("sample") and steps is item["hists"][0]:
+            r["sample"] = dict(prior=pname, registered_on=real, history=_h_describe(steps))
+        out.append(r)
+    return out
+
+
+def run_prior_histories(ck, states, thorough):
+    from harness import tlaval
+    if not states:
+        ck.vacuous("ConstraintPriors.tla (HSpec) produced no history")
+        return
+    hists = [tlaval.to_json(st["hist"]) for st in states]
+    fams = sorted({str(tlaval.to_json(st["hfam"])) for st in states})
+    by = {}
+    longest = max(len(h) for h in hists)
+    n_pred = 0
+    for st, h in zip(states, hists):
+        if len(h) != longest:
+            continue          # every shorter history is a prefix of a maximal one and is checked step by step there
+        fam = str(tlaval.to_json(st["hfam"]))
+        n_pred += any(s[3] for s in h)
+        # every history on one realisation of the module the prior is registered on, rotating (every realisation receives every operation
+        # pair of every family many times); matrix / vector valued priors on the plain holder
+        reals = ["holder"] if fam in ("MVN2", "LKJ2") else [H_REAL[int(core.digest(h), 16) % 3]]
+        for real in reals:
+            by.setdefault((fam, real), []).append(h)
+    for fam in ("Normal", "LogNormal", "HalfNormal", "HalfCauchy", "Horseshoe", "Gamma", "Uniform", "SmoothedBox", "MVN2", "LKJ2"):
+        if fam not in fams:
+            ck.vacuous("no history for prior family %s" % fam)
+    if not n_pred:
+        ck.vacuous("the code-shaped model predicts no stale prior (the dtype conversion branch was not reached)")
+    items = []
+    for (fam, real), hs in sorted(by.items()):
+        hs.sort(key=lambda h: core.digest(h))
+        for i in range(0, len(hs), 50):
+            items.append(dict(fam=fam, real=real, hists=hs[i:i + 50], sample=(i == 0 and real == "kernel" and fam == "LogNormal")))
+    results = core.pmap(_prior_history_worker, items, chunksize=1)
+    ck.absorb(results)
+    ck.section("prior_histories", histories=len(results), steps=sum(r.get("n", 0) for r in results), families=len(fams),
+               realisations=len({k[1] for k in by}), predicted_stale_by_model=n_pred)
+
+
 # ---------------------------------------------------------------------------------------------
 def run_observations(ck):
     """Behaviour next to the property that the replays had to work around; recorded, never a verdict."""
@@ -769,6 +1050,8 @@ def replay(rep):
         res = _module_prior_worker(case["item"])
     elif kind == "mll":
         res = _mll_worker(case["item"])
+    elif kind == "prior-history":
+        res = _prior_history_worker(case["item"])
     else:
         print("MACHINERY-FAILURE unknown replay kind %r" % kind)
         return 2
